@@ -340,6 +340,9 @@ func exploreAll(worker string, scenarios []string, boundOf func(string) int, bas
 			perScenario[sc] = st.executions - before
 			continue
 		}
+		if len(x.SampleTrace) > 0 && len(schedSamples) < 3 && (len(schedSamples) == 0 || i%17 == 5) {
+			schedSamples = append(schedSamples, map[string]interface{}{"scenario": sc, "one_executed_schedule (enabled threads -> choice, at which point)": x.SampleTrace, "executions_of_this_scenario": x.Executions})
+		}
 		viols = append(viols, confirmed...)
 		st.executions += x.Executions
 		st.points += x.Points
@@ -456,6 +459,12 @@ func c12Scenarios(thorough bool) []string {
 	add("CB:3|CF:3")
 	add("GB:2|NB:2")
 	add("CF:2|CG:2|CV:2")
+	// S7'' overlapping seed derivations with DIFFERENT arguments, followed by another call (a memo
+	// whose bookkeeping is locked but whose logic confuses two derivations in flight shows here)
+	add("SD:2|SD:5,SD:5")
+	add("SD:2,SD:5|SD:5,SD:2")
+	add("SP:2|SP:5,SP:2")
+	add("SM:2,SM:5|SM:5")
 	// S8 unsupported language next to English
 	add("CV:10|CV:2")
 	add("GE:10|CV:2")
@@ -635,7 +644,10 @@ func runC12(tier string) int {
 		ex[sc] = perScenario[sc]
 	}
 	r.Extra["executions_per_scenario"] = ex
-	r.Samples = append(r.Samples, map[string]interface{}{"scenario": scenarios[0], "schedule": "0,0,1,0,0,1", "meaning": "index into the canonical enabled list at each scheduling point (running thread first)"})
+	r.Samples = append(r.Samples, schedSamples...)
+	if len(r.Samples) == 0 {
+		r.Samples = append(r.Samples, map[string]interface{}{"scenario": scenarios[0], "note": "free-running pass only"})
+	}
 	r.Assumptions = []string{"<=3 goroutines, preemption bound as stated, K preemptible visits per site; weak-memory effects beyond happens-before races are not modelled", "the instrumenter's insertions only record and yield; the shims have the blocking semantics of sync", "free-running -race pass is sampling and never what makes the run count as exhaustive"}
 	if !hb {
 		r.Exhaustive = false
@@ -644,6 +656,9 @@ func runC12(tier string) int {
 }
 
 var raceRepsOverride int
+
+// schedSamples collects a few actually executed schedules for the evidence.
+var schedSamples []interface{}
 
 // racePass runs the scenario bodies free-running in a -race build.
 func racePass(scenarios []string, thorough bool, r *Result, baselines ...map[string]string) (runs, reports int, note string) {
